@@ -596,6 +596,10 @@ def mutation_vocabulary(w, target, side_tag, tier):
 
     def trace_inplace():
         d = o.style.model3d.data
+        if not d:
+            o.style.model3d.add_trace({"backend": "generic", "constructor": "scatter3d",
+                                       "kwargs": {"x": np.array([3.0, 4.0]), "y": np.array([3.0, 4.0]), "z": np.array([3.0, 4.0])}})
+            d = o.style.model3d.data
         d[0].kwargs["x"][0] += 5.0
         d[0].kwargs["new"] = 1
     ops.append(("style:trace_inplace", trace_inplace, True))
@@ -626,8 +630,19 @@ def mutation_vocabulary(w, target, side_tag, tier):
     ops.append(("copy_again", lambda: o.copy(position=(9, 9, 9), style_label="again"), False))
     if tier == "quick":
         # the vocabulary is the same in both tiers; quick only drops the duplicates of a kind
-        drop = {"move_path", "rotate_rotvec", "style:nested", "style:frames_list"}
+        drop = {"move_path", "rotate_rotvec", "style:frames_list"}
         ops = [x for x in ops if x[0] not in drop]
+
+    # in-place mutations first: they write through whatever buffer the object holds at that moment, so that a buffer shared
+    # with the other side is still shared when they run; assignments (which rebind) afterwards
+    def prio(op):
+        n = op[0]
+        if n.startswith("inplace:"):
+            return 0
+        if n in ("style:nested", "style:trace_inplace", "style:color", "style:label"):
+            return 1
+        return 2
+    ops = sorted(ops, key=prio)
     return ops
 
 
